@@ -330,6 +330,45 @@ fn c19_load_one() {
     kani::cover!(!o.loaded, "no room in this packet");
 }
 
+/// Concrete witness of suspected defect #15 through the public API (tier pending; no symbolic
+/// input, so the checker replays it natively as is): peer max_datagram_frame_size = 10, the
+/// application sends a 9-byte datagram (admitted: 1 + 9 <= 10), 32 bytes of packet space are left.
+/// The loader prefers the length-prefixed form and emits `31 09 <9 bytes>` = 11 bytes > 10, which a
+/// peer running this very implementation answers with PROTOCOL_VIOLATION
+/// (DatagramIncoming::recv_datagram: encoding_size 2 + 9 > 10).
+#[kani::proof]
+#[kani::unwind(6)]
+#[kani::stub(alloc::fmt::format, stub_fmt)]
+#[kani::stub(core::slice::index::slice_index_fail, stub_slice_index_fail)]
+#[kani::stub(std::sync::Mutex::lock, stub_mutex_lock)]
+#[kani::stub(tracing::callsite::DefaultCallsite::interest, stub_interest)]
+#[kani::stub(tracing::__macro_support::__is_enabled, stub_is_enabled)]
+#[kani::stub(tracing::Event::dispatch, stub_dispatch)]
+#[kani::stub(qbase::net::tx::ArcSendWakers::wake_all_by, stub_wake_all_by)]
+fn c19_len_max_minus_1_witness() {
+    const PEER_MAX: u64 = 10;
+    const LEN: usize = 9;
+    let outgoing = DatagramOutgoing::new(ArcSendWakers::new());
+    let writer = match outgoing.new_writer(PEER_MAX) {
+        Ok(w) => w,
+        Err(_) => panic!("extension enabled"),
+    };
+    let r = writer.send_bytes(Bytes::from_static(&SEQ).slice(0..LEN));
+    assert!(r.is_ok(), "1 + 9 <= 10: admitted");
+    core::mem::forget(r);
+    let mut sink = Sink::new(32);
+    let r = outgoing.try_load_data_into(&mut sink);
+    assert!(r.is_ok());
+    kani::cover!(true, "datagram loaded");
+    assert!(sink.payload_len == LEN);
+    assert!(
+        (sink.hdr_len + sink.payload_len) as u64 <= PEER_MAX,
+        "emitted DATAGRAM frame exceeds the peer's max_datagram_frame_size"
+    );
+    core::mem::forget(outgoing);
+    core::mem::forget(writer);
+}
+
 /// Twin with the trigger assumed away.
 #[kani::proof]
 #[kani::unwind(6)]
